@@ -121,9 +121,11 @@ Theorem C06_exactly_once : forall c now s0 us,
 Proof. exact exactly_once_proof. Qed.
 Print Assumptions C06_exactly_once.
 
-(* the executable expectation the dispatch compares (kind t6c) is [due], enumerated over the candidates *)
-Theorem C06_expect_is_due : forall c dom r u x,
-  NoDup dom -> In x dom -> about x (fst (expect c dom r u)) = due c r u x.
+(* the executable expectation the dispatch compares (kind t6c, incl. DHCP offers and the DHCP path) is [due],
+   enumerated over the addresses the reference has tracked *)
+Theorem C06_expect_is_due : forall c r u x,
+  NoDup (r_dom r) -> (forall k, r_map r k <> None -> In k (r_dom r)) ->
+  about x (fst (expect c r u)) = due c r u x.
 Proof. exact expect_due. Qed.
 Print Assumptions C06_expect_is_due.
 
